@@ -324,6 +324,9 @@ def run_property(pid, tier):
             "known_findings_reproduced": known_lines,
             "bounded_standins": (list(getattr(cfg.extra, "standins", []) or []) if cfg.extra is not None else []) + thorough_standins,
             "closure_rounds": rounds,
+            "slowest_obligations": [{"obligation": o["name"], "seconds": o["time"]} for _, o in sorted(rel, key=lambda qo: -qo[1]["time"])[:5]],
+            "slowest_functions": [{"function": q, "seconds": round(r.get("time", 0), 1), "solver_calls": r.get("nsolve")} for q, r in
+                                  sorted(((q, r) for q, r in results.items() if "fault" not in r), key=lambda qr: -qr[1].get("time", 0))[:5]],
             "lean": lean_summary(),
             "t0_axiom_audit": {"kind": "bounded test of the library model against CPython (not a proof step)", "ok": aud.get("ok"),
                                "instances": aud.get("instances"), "schemas": len(aud.get("schemas", []))},
